@@ -1,5 +1,5 @@
 """C03 — the hash depends only on the byte stream, not on how it is fed (structural half)."""
-from ..rules import engine, errflow, generator as gen, witness, vis
+from ..rules import engine, errflow, generator as gen, witness, vis, summary
 
 EXPL = ("Decides: SA-SIBLING: the per-byte regions of update / update_by_iter / update_by_byte (from the rolling-hash update of the "
         "current byte to the back edge) canonicalise to identical MIR, in release, debug and unsafe builds, and each form iterates its "
@@ -29,6 +29,7 @@ def run(ctx):
         ctx.guard("C03", "addassign", lambda: engine.add_assign_forms(ctx, prog))
         ctx.guard("C03", "delegate", lambda: gen.finalizers_delegate(ctx, prog))
         ctx.guard("C03", "declared", lambda: gen.ok_effects_set_fixed(ctx, prog))
+        ctx.guard("C03", "summaries", lambda: summary.check(ctx, prog, 'internals::generate::Generator|generate_easy', floor=5))
         ctx.guard("C03", "traits", lambda: vis.trait_census(ctx, prog, scope='for internals::generate::Generator$'))
         if c.startswith("unsafe"):
             ctx.guard("C03", "mirror", lambda: engine.mirror(ctx, prog))
